@@ -97,6 +97,7 @@ fn derived_f64(tape: &[u32], st: &mut Stats) -> CaseResult {
     let deep_start = t.chance(50);
     let pts: Vec<Vec<f64>> = (0..3).map(|_| super::c05::gen_point(&mut t, n)).collect();
     let describe = |extra: &str| json!({"text": text, "wrt": [i, j], "order": order, "detail": extra});
+    let senss: std::cell::RefCell<Vec<Option<f64>>> = std::cell::RefCell::new(vec![]);
     let res = guard(|| -> Result<(String, Vec<String>, Vec<f64>, Vec<String>), String> {
         let e = ex_msg(exmex::FlatEx::<f64>::parse(&text))?;
         let d1 = if deep_start {
@@ -106,6 +107,11 @@ fn derived_f64(tape: &[u32], st: &mut Stats) -> CaseResult {
         };
         let d = if order == 2 { ex_msg(d1.partial(j))? } else { d1 };
         let vals: Vec<f64> = pts.iter().map(|p| d.eval(p).unwrap_or(f64::NAN)).collect();
+        // conditioning of the derived expression at the points (measured with its own evaluation)
+        let fd = |q: &[f64]| d.eval(q).ok();
+        for p in &pts {
+            senss.borrow_mut().push(sensitivity(&fd, p));
+        }
         let js = ex_msg(serde_json::to_string(&d).map_err(|e| exmex::ExError::new(&e.to_string())))?;
         Ok((d.unparse().to_string(), d.var_names().to_vec(), vals, vec![js]))
     });
@@ -150,7 +156,8 @@ fn derived_f64(tape: &[u32], st: &mut Stats) -> CaseResult {
                 if !(a.is_finite() && b.is_finite() && a.abs() < 1e9 && b.abs() < 1e9) {
                     continue;
                 }
-                if !close(*a, *b, 1e-9) {
+                let Some(sens) = senss.borrow().get(k).copied().flatten() else { continue };
+                if !close_cond(*a, *b, 1e-9, sens) {
                     return Err(fail("C12/derived/value", format!("printed `{printed}` evaluates to {b} at {:?}, the expression itself to {a}", pts[k]), describe(&printed)));
                 }
             }
